@@ -146,6 +146,13 @@ def r20_target(repo, sink):
                 return Sym("tgtcall", Ref(obj))
             return super().get_attr(obj, attr, node, mod)
 
+        def ext_isinstance(self, v, name, node):
+            # a notification time shifted by a duration (`time + self.delay`) is still a datetime: the type test of
+            # notify_targets passes and the shifted time shows in the recorded notification
+            if name == "datetime" and isinstance(v, Sym) and v.op in ("add", "sub") and any(self.order.lookup(a) is not None for a in v.args):
+                return True
+            return super().ext_isinstance(v, name, node)
+
     rep = next((e for e in ads if e.kind == lek.BUFFER), ads[0])
     od = Order()
     tn = Sym("tn")
@@ -198,6 +205,11 @@ def r20_target(repo, sink):
             paths = it_k.run_all(thunk, limit=64)
         except (Raised, Undecided, AnalysisError, KeyError, TypeError, RecursionError):
             continue  # (adapters whose notification needs more set-up are decided by their own rules: buffers R26, delays R30)
+        if not any(kind == "ret" for _d, (kind, _v) in paths):
+            # no explored path of this class's notification completes in the abstract domain: not decided here (never a silent pass)
+            why = next((repr(val) for _d, (kind, val) in paths if kind != "ret"), "no path")
+            sink.unknown("R20", f"notification-time:{e.cls.name}", su_k, f"the notification of {e.cls.name} does not complete in the abstract domain: {why}")
+            continue
         n_cls += 1
         want_n = [("notify", "tgt1", tn), ("notify", "tgt2", tn)]
         notes = next((val for _d, (kind, val) in paths if kind == "ret" and val != want_n), want_n)
